@@ -30,7 +30,7 @@ POSTCONDITION TraceAccepted
 
 
 def run_sim(ctx, name, stakes, byz=(), byz_mode="silent", crashed=(), crash_at=0, seed=1, gst=0,
-            chaos=1500, drop=0, dup=0, delta=80, run_ms=9000, stake_scale=0, standstill=0):
+            chaos=1500, drop=0, dup=0, delta=80, run_ms=9000, stake_scale=0, standstill=0, lag=None):
     out = os.path.join(ctx.work, f"{name}.ndjson")
     args = ["sim", "--stakes", ",".join(map(str, stakes)), "--seed", seed, "--run", run_ms,
             "--gst", gst, "--chaos", chaos, "--drop", drop, "--dup", dup, "--delta", delta,
@@ -39,6 +39,9 @@ def run_sim(ctx, name, stakes, byz=(), byz_mode="silent", crashed=(), crash_at=0
         args += ["--stake-scale", stake_scale]
     if standstill:
         args += ["--standstill", standstill]
+    if lag:
+        # (node, from ms, to ms): no shreds / repair answers from correct validators reach `node` in the interval
+        args += ["--lag", ",".join(map(str, lag))]
     if byz:
         args += ["--byz", ",".join(map(str, byz))]
     if crashed:
